@@ -14,7 +14,8 @@ CHECKS = {
             'validated by independent XSD-derived DFA',
             'Generated-history search: every returned to_string() is parsed and every checked node\'s child word is '
             'run through the oracle DFA; all histories <=3 ops over a deterministic symbol subset are enumerated for '
-            'all 94 types, plus seeded adaptive histories with all mutating ops and nested documents.', '3 C01'),
+            'all 94 types, plus seeded adaptive histories with all mutating ops, checked children with content of their '
+            'own, child objects shared between two parents, and nested documents.', '3 C01'),
     'C02': ('exhaustive word enumeration per content model up to a length bound + 2-switch DFA cover + Hypothesis '
             'DFA walks; acceptance/order oracle, API and parser paths',
             'All words of each of the 94 regular languages up to a stated length (complete), transition-pair cover '
@@ -35,7 +36,8 @@ CHECKS = {
     'C10': ('differential twin over generated failing histories (bounded-exhaustive + Hypothesis) with replay-based '
             'acceptance probes',
             'A history with failing ops is run against a twin that skips them; observations after every step and '
-            'per-symbol acceptance (by replay on fresh objects) must agree.', '3 C10'),
+            'per-symbol acceptance (by replay on fresh objects) must agree; failing ops include negative forwards and '
+            'the removal of a child that is attached to another element, which must itself stay as it was.', '3 C10'),
     'C13': ('Hypothesis-drawn interleavings of 2-3 instance histories vs solo replays; pristine-subprocess behaviour '
             'panel',
             'Each instance\'s observation trace under a harness-owned interleaving must equal its solo trace; a fresh '
@@ -44,19 +46,24 @@ CHECKS = {
     'C14': ('Hypothesis-generated element trees with post-construction attribute/value edits; copy-vs-original '
             'differential and mutation independence',
             'deepcopy text and public dump equality, original unchanged, and independence under drawn mutations of '
-            'copy and original.', '3 C14'),
+            'copy and original; the same for deep copies of nested elements (compared with a detached rebuild) and for '
+            'unchecked nodes holding arbitrary children.', '3 C14'),
     'C15': ('complete (class, child/attribute name) enumeration + Hypothesis intent sequences run through both API '
             'surfaces (differential)',
             'Every schema child and attribute name of every class is exercised through the dot surface against the '
-            'explicit call; generated mixed intent sequences are compared step by step.', '3 C15'),
+            'explicit call (including =None on unset attributes and three same-named children with a replaced one); '
+            'generated mixed intent sequences are compared step by step.', '3 C15'),
     'C16': ('Hypothesis strings over the XML Char range injected into every string position of generated trees; '
             'round-trip through xml.etree, repeat-call and no-intermediate-serialisation twin',
             'Exact recovery of every injected string and of the structure by an independent XML parser; repeated and '
-            'subtree serialisations compared; side-effect freedom by twin.', '3 C16'),
+            'subtree serialisations compared; side-effect freedom by twin; floats needing exponent notation must come '
+            'back as plain decimal literals of exactly that value.', '3 C16'),
     'C18': ('Hypothesis histories on unchecked parents with children from all 441 classes (model-based), '
             'checked/unchecked byte-identity differential, lock-step twin for nested checked elements',
             'No exception and insertion order on unchecked elements, byte identity with the checked twin on valid '
-            'words, and identical behaviour of a checked element whether or not its ancestors are unchecked.',
+            'words, identical behaviour of a checked element whether or not its ancestors are unchecked, per-element '
+            'isolation of late-switched and shortcut-created elements, and identical value / attribute validation '
+            'for unchecked and checked elements of all 441 classes.',
             '3 C18'),
     'C04': ('exhaustive (element, attribute) x route x validity enumeration + Hypothesis set/overwrite/remove histories '
             'against a model dict; serialised attributes read back with xml.etree',
@@ -75,7 +82,8 @@ CHECKS = {
     'C11': ('rebuilt-twin differential over generated add/remove histories (bounded-exhaustive + Hypothesis) with '
             'replay-based acceptance probes',
             'After removals the element is compared with a fresh element holding the survivors: verdict/text, order '
-            'and per-symbol acceptance.', '3 C11'),
+            'and per-symbol acceptance; all histories "k adds then one removal" over the full alphabets are enumerated '
+            '(k<=2 quick, k<=3 thorough) and inside that bound the open finding is matched by exact history.', '3 C11'),
     'C12': ('exact-DP enumeration of unique-arrangement multisets and all their permutations; oracle-steered add '
             'histories judged by completability',
             'Every multiset (size<=3/4) with exactly one valid arrangement is fed in every permutation; every '
@@ -87,8 +95,9 @@ CHECKS = {
     'C17': ('fault enumeration: every node made to fail + exception injected at every k-th serialiser step x prior '
             'file states; subprocess configurations for default encodings (ASCII, UTF-8, emulated Latin-1/cp1252)',
             'Every fault point of generated scores is enumerated against three prior destination states (bytes must be '
-            'unchanged); success path compared byte-for-byte with to_string(); whole import/build/write/parse '
-            'pipeline compared across four default text encodings in fresh interpreters.', '3 C17'),
+            'unchanged); success path compared byte-for-byte with to_string() over five prior states (absent, empty, '
+            'shorter, arbitrary bytes, longer); whole import/build/write/parse pipeline compared across four default '
+            'text encodings in fresh interpreters, including files stored in other declared encodings.', '3 C17'),
     'C19': ('exception-type and output oracle over bounded-exhaustive and Hypothesis misuse histories on every class; '
             'failures bucketed by raise site',
             'Every escaping exception is classified against the documented families (with oracle-judged invalidity of '
